@@ -299,7 +299,10 @@ class Probe:
             cfg.update(extra)
         n0 = len(mon.events)
         mon.expect_outside, mon.top_id = outside, id(obj)
-        kind, val = core.outcome(obj.gradient, *args, **kwargs)
+        # a refusal is a *documented* exception; AttributeError/KeyError/IndexError/... from gradient() is a crash
+        # (python lists are not a documented input type: any refusal of those is accepted)
+        narrow = not any(isinstance(a, (list, tuple)) for a in list(args) + list(kwargs.values()))
+        kind, val = core.outcome(obj.gradient, *args, refusal=(NotImplementedError, ValueError, TypeError) if narrow else core.REFUSAL_TYPES_BROAD, **kwargs)
         mon.expect_outside, mon.top_id = False, None
         evs = mon.events[n0:]
         top = evs[-1] if (kind == "value" and evs and evs[-1].get("obj_id") == id(obj)) else None
